@@ -655,6 +655,9 @@ func ruleUntrustedSize(r *Run) {
 				if clampedSize(sz, 0) {
 					continue // bounded by a constant (if n > max { n = max }, min(n, max)): a hint, not a demand
 				}
+				if guardedBelowConst(sz, in.Block()) {
+					continue // if n > max { return fallback() } in front of the allocation: bounded on this path
+				}
 				for v := range sl.Slice(sz).Vals {
 					var fv *types.Var
 					switch y := v.(type) {
@@ -3967,6 +3970,82 @@ func comparedWithConst(v ssa.Value, depth int) bool {
 
 // clampedSize: the size expression is bounded above by a constant — it is (a conversion / constant
 // offset of) a phi with a constant edge, or of min(x, constant).
+// guardedBelowConst: the block at is reached only over the "not above the constant" edge of a
+// comparison of the size (behind conversions and ± constants) with a constant
+// (if n > max { return … } / if n <= max { alloc }).
+func guardedBelowConst(v ssa.Value, at *ssa.BasicBlock) bool {
+	core := v
+	for i := 0; i < 8; i++ {
+		switch x := core.(type) {
+		case *ssa.Convert:
+			core = x.X
+			continue
+		case *ssa.ChangeType:
+			core = x.X
+			continue
+		case *ssa.BinOp:
+			if x.Op == token.ADD || x.Op == token.SUB {
+				if _, isC := x.Y.(*ssa.Const); isC {
+					core = x.X
+					continue
+				}
+				if _, isC := x.X.(*ssa.Const); isC && x.Op == token.ADD {
+					core = x.Y
+					continue
+				}
+			}
+		}
+		break
+	}
+	same := func(a ssa.Value) bool {
+		for i := 0; i < 4; i++ {
+			if a == core {
+				return true
+			}
+			switch x := a.(type) {
+			case *ssa.Convert:
+				a = x.X
+			case *ssa.ChangeType:
+				a = x.X
+			default:
+				return false
+			}
+		}
+		return a == core
+	}
+	fn := at.Parent()
+	for _, b := range fn.Blocks {
+		if len(b.Instrs) == 0 || len(b.Succs) != 2 || b.Succs[0] == b.Succs[1] {
+			continue
+		}
+		iff, ok := b.Instrs[len(b.Instrs)-1].(*ssa.If)
+		if !ok {
+			continue
+		}
+		cmp, ok := iff.Cond.(*ssa.BinOp)
+		if !ok {
+			continue
+		}
+		_, yc := cmp.Y.(*ssa.Const)
+		_, xc := cmp.X.(*ssa.Const)
+		var small *ssa.BasicBlock // successor on which size <= / < constant
+		switch {
+		case yc && same(cmp.X) && (cmp.Op == token.GTR || cmp.Op == token.GEQ):
+			small = b.Succs[1]
+		case yc && same(cmp.X) && (cmp.Op == token.LSS || cmp.Op == token.LEQ):
+			small = b.Succs[0]
+		case xc && same(cmp.Y) && (cmp.Op == token.LSS || cmp.Op == token.LEQ):
+			small = b.Succs[1]
+		case xc && same(cmp.Y) && (cmp.Op == token.GTR || cmp.Op == token.GEQ):
+			small = b.Succs[0]
+		}
+		if small != nil && len(small.Preds) == 1 && (small == at || small.Dominates(at)) {
+			return true
+		}
+	}
+	return false
+}
+
 func clampedSize(v ssa.Value, depth int) bool {
 	if v == nil || depth > 6 {
 		return false
